@@ -447,7 +447,29 @@ func checkC19(P *Prog, r *Result) {
 			}
 			nd++
 			c := fmt.Sprintf("%s#child-data@%d", fname(fn), nd)
-			if bad := schemaOwned(fn, val); len(bad) > 0 {
+			// (the memory meant is what a builder stored as a Default or Catch value: the field schemas themselves are
+			// handed to nobody as data, though a provider call that takes a key may be said to "alias its arguments")
+			var bad []string
+			for _, rt := range P.rootsOf(val) {
+				viaValueRole := false
+				for _, st := range rt.path {
+					if st.field != nil {
+						if rn := P.roleName(st.field); rn == "defaultVal" || rn == "catch" {
+							viaValueRole = true
+						}
+					}
+				}
+				if !viaValueRole {
+					continue
+				}
+				for _, cl := range P.resolveUnknownParam(g, P.classifyIn(fn, rt), 0, map[*ssa.Parameter]bool{}) {
+					if cl.class == mcSchema {
+						bad = append(bad, cl.rt.String())
+					}
+				}
+			}
+			bad = uniqSorted(bad)
+			if len(bad) > 0 {
 				r.bad("C19/default-not-aliased", c, P.ipos(in), "memory owned by the schema (a Default) is handed to a child node as its input data without a clone: a child that keeps its input (a custom schema of a slice, map or pointer type does `*dest = data`) makes the destination share it, and writing to the result changes the schema's default", bad...)
 			} else {
 				r.ok("C19/default-not-aliased", c, P.ipos(in), "the child's input data does not derive from schema-owned memory")
